@@ -939,14 +939,62 @@ def provider_reads(nodes: List[ast.AST]) -> List[ast.Call]:
     return out
 
 
+def _dedup_only(comp: ast.AST) -> bool:
+    """Every condition of the one-generator comprehension *comp* (`[k for k in <seq> if ..]`) only drops an element that
+    the value the comprehension is appended to already holds: `k not in X` / `k != y` where the comprehension is an
+    operand of `X + [..]` / `[y, ..] + [..]` (or the right-hand side of `X += [..]`).  Nothing of the union is lost."""
+    if not isinstance(comp, (ast.ListComp, ast.GeneratorExp)) or len(comp.generators) != 1:
+        return False
+    g = comp.generators[0]
+    if not (isinstance(g.target, ast.Name) and isinstance(comp.elt, ast.Name) and comp.elt.id == g.target.id and g.ifs):
+        return False
+    # the other operands of the concatenation the comprehension takes part in
+    others: List[ast.AST] = []
+    child: ast.AST = comp
+    for a in ancestors(comp):
+        if isinstance(a, ast.BinOp) and isinstance(a.op, ast.Add):
+            others.append(a.left if a.right is child else a.right)
+        elif isinstance(a, ast.AugAssign) and isinstance(a.op, ast.Add) and a.value is child:
+            others.append(a.target)
+        elif isinstance(a, ast.Call) and isinstance(a.func, ast.Name) and a.func.id in ("list", "tuple") and len(a.args) == 1 and a.args[0] is child:
+            pass
+        else:
+            break
+        child = a
+    flat: List[ast.AST] = []
+    for o in others:
+        todo = [o]
+        while todo:
+            x = todo.pop()
+            if isinstance(x, ast.BinOp) and isinstance(x.op, ast.Add):
+                todo.extend([x.left, x.right])
+            else:
+                flat.append(x)
+    if not flat:
+        return False
+    same = lambda p, q: ast.dump(p).replace("Store()", "Load()") == ast.dump(q).replace("Store()", "Load()")  # noqa: E731
+    for c in g.ifs:
+        if not (isinstance(c, ast.Compare) and len(c.ops) == 1 and isinstance(c.left, ast.Name) and c.left.id == g.target.id):
+            return False
+        rhs = c.comparators[0]
+        if isinstance(c.ops[0], ast.NotIn) and any(same(rhs, o) for o in flat):
+            continue
+        if isinstance(c.ops[0], ast.NotEq) and any(isinstance(o, (ast.List, ast.Tuple)) and any(same(rhs, e) for e in o.elts) for o in flat):
+            continue
+        return False
+    return True
+
+
 def dropped_on_the_way(read: ast.AST, top: ast.AST) -> Optional[str]:
     """The construct between the provider call *read* and the statement / lambda *top* that can drop elements of the
     sequence (a comprehension condition, a set difference, filter(), a slice), or None."""
     child: ast.AST = read
     for a in ancestors(read):
         if isinstance(a, ast.comprehension) and child is a.iter and a.ifs:
-            return "if " + " if ".join(norm(c, 80) for c in a.ifs)
-        if isinstance(a, (ast.ListComp, ast.SetComp, ast.GeneratorExp)) and len(a.generators) == 1 and child is a.generators[0] and a.generators[0].ifs and any(x is read for x in ast.walk(a.generators[0].iter)):
+            comp = next(iter(ancestors(a)), None)
+            if not (comp is not None and _dedup_only(comp)):
+                return "if " + " if ".join(norm(c, 80) for c in a.ifs)
+        if isinstance(a, (ast.ListComp, ast.SetComp, ast.GeneratorExp)) and len(a.generators) == 1 and child is a.generators[0] and a.generators[0].ifs and any(x is read for x in ast.walk(a.generators[0].iter)) and not _dedup_only(a):
             return "if " + " if ".join(norm(c, 80) for c in a.generators[0].ifs)
         if isinstance(a, ast.BinOp) and isinstance(a.op, (ast.Sub, ast.BitAnd, ast.BitXor)):
             return norm(a, 100)
@@ -1454,6 +1502,7 @@ def run(repo: Repo, R: Report) -> None:
         if not (isinstance(f0, FuncNode) and f0.name == "get_created_keys"):
             continue
         f = clone(normalize(repo, repo.module(sweep_rel), f0, copyprop="all", loops=True))
+        _attach_parents(f)
         for ret in [n for n in ast.walk(f) if isinstance(n, ast.Return) and n.value is not None]:
             adds = [b for b in ast.walk(ret.value) if isinstance(b, ast.BinOp) and isinstance(b.op, ast.Add)]
             for b in adds:
@@ -1463,7 +1512,8 @@ def run(repo: Repo, R: Report) -> None:
                     continue
                 n_cat += 1
                 w = wrapped[0]
-                dedup = any(isinstance(c, ast.comprehension) and any(isinstance(t, ast.Compare) and len(t.ops) == 1 and isinstance(t.ops[0], ast.NotIn) for i in c.ifs for t in ast.walk(i)) for c in _flow(f, w)) \
+                # the filter must test membership in what the list already holds (the other operand), not in anything else
+                dedup = any(isinstance(c, (ast.ListComp, ast.GeneratorExp)) and _dedup_only(c) for c in _flow(f, w)) \
                     or any(isinstance(c, ast.Call) and call_name(c) in ("dict.fromkeys", "set", "sorted") for a in ancestors_of(ret.value, b) for c in [a])
                 R.check(dedup, r_ck, sweep_rel, qn, "own <var>_values keys + the element's created keys, without duplicates", "the generated class lists its own keys followed by the wrapped element's keys without removing duplicates: a sweep of a swept element that uses the same variable name declares `t_values` twice, and the node built on it fails SVA104 (duplicate created keys, error)", getattr(f0, "lineno", 0))
     if n_cat == 0:
@@ -1480,6 +1530,7 @@ def run(repo: Repo, R: Report) -> None:
     _round3(repo, R, tmpl)
     _round4(repo, R, tmpl)
     _round5(repo, R, tmpl)
+    _round6(repo, R, tmpl)
 
 
 def _round3(repo: Repo, R: Report, tmpl) -> None:
@@ -2219,3 +2270,399 @@ def _round5(repo: Repo, R: Report, tmpl) -> None:
             R.violation(r_dig, m2.rel, qualname_of(f2), norm(stmt_of(c2), 110),
                         f"`{norm(c2, 90)}` raises ValueError for a float inf / nan, and no handler between it and `{m.rel}:{where}` catches ValueError (call chain: {' -> '.join(chain)}): a sweep whose value sequence holds `.inf` / `.nan` (valid YAML floats, an open-ended threshold) makes get_metadata() of the generated class raise - SVA100 (error); the metaclass swallows the same exception while the class is created, so the class is never registered (SVA107), and an IO adapter built over it fails the same way",
                         getattr(c2, "lineno", 0))
+
+
+# --------------------------------------------------------------------------- round 6: catalogue name tests vs configured names; one processor per node
+def catalogue_checks(repo: Repo) -> List[str]:
+    """Names of the check functions the catalogue registers through RuleSpec(...)."""
+    mod = repo.module(EXP)
+    checks: List[str] = []
+    for c in [n for n in ast.walk(mod.tree) if isinstance(n, ast.Call)]:
+        if call_name(c) == "RuleSpec":
+            cand = [a for a in list(c.args) + [k.value for k in c.keywords] if isinstance(a, ast.Name) and isinstance(mod.defs.get(a.id), FuncNode)]
+            checks.extend(a.id for a in cand if a.id not in checks)
+    return checks
+
+
+def diagnostic_builders(repo: Repo) -> Dict[str, Tuple[int, str]]:
+    """{helper of the catalogue module: (index, name) of its severity parameter}: the functions that construct a diagnostic
+    whose `severity` is one of their own parameters (found by that role, whatever they are called)."""
+    mod = repo.module(EXP)
+    out: Dict[str, Tuple[int, str]] = {}
+    for qn, fn in mod.defs.items():
+        if not isinstance(fn, FuncNode) or "." in qn:
+            continue
+        ps = _explicit_params(fn)
+        for c in calls_in(fn):
+            v = kwarg(c, "severity")
+            if isinstance(v, ast.Name) and v.id in ps:
+                out[qn] = (ps.index(v.id), v.id)
+    return out
+
+
+def error_diagnostics(fn: ast.AST, builders: Dict[str, Tuple[int, str]]) -> List[ast.Call]:
+    """Calls in *fn* (normal form, builders kept) that produce an error-level diagnostic."""
+    out: List[ast.Call] = []
+    for c in [n for n in ast.walk(fn) if isinstance(n, ast.Call)]:
+        sev: Optional[ast.AST] = None
+        nm = call_attr(c)
+        if nm in builders:
+            i, pname = builders[nm]
+            sev = c.args[i] if i < len(c.args) and not any(isinstance(a, ast.Starred) for a in c.args[: i + 1]) else kwarg(c, pname)
+        else:
+            sev = kwarg(c, "severity")
+        if isinstance(sev, ast.Constant) and sev.value == "error":
+            out.append(c)
+    return out
+
+
+def _targets(t: ast.AST) -> Set[str]:
+    return {x.id for x in ast.walk(t) if isinstance(x, ast.Name)}
+
+
+def value_flow(fn: ast.AST, expr: Optional[ast.AST], _seen: Optional[Set[str]] = None) -> List[ast.AST]:
+    """Backward value slice of *expr* in *fn*: its own nodes and, for every local it reads, what is assigned or added to
+    that local and the sequence it iterates over (loop and comprehension targets, assignment expressions)."""
+    if expr is None:
+        return []
+    _seen = _seen if _seen is not None else set()
+    out = list(ast.walk(expr))
+    for nm in sorted({x.id for x in out if isinstance(x, ast.Name) and isinstance(x.ctx, ast.Load)}):
+        if nm in _seen:
+            continue
+        _seen.add(nm)
+        srcs: List[ast.AST] = list(assigned_value(fn, nm))
+        for n in ast.walk(fn):
+            if isinstance(n, (ast.For, ast.AsyncFor)) and nm in _targets(n.target):
+                srcs.append(n.iter)
+            elif isinstance(n, ast.comprehension) and nm in _targets(n.target):
+                srcs.append(n.iter)
+            elif isinstance(n, ast.AugAssign) and isinstance(n.target, ast.Name) and n.target.id == nm:
+                srcs.append(n.value)
+            elif isinstance(n, ast.NamedExpr) and n.target.id == nm:
+                srcs.append(n.value)
+            elif isinstance(n, ast.Assign) and any(isinstance(t, (ast.Tuple, ast.List)) and nm in _targets(t) for t in n.targets):
+                srcs.append(n.value)
+            elif isinstance(n, ast.Call) and isinstance(n.func, ast.Attribute) and n.func.attr in ("append", "extend", "insert", "add", "update") and isinstance(n.func.value, ast.Name) and n.func.value.id == nm:
+                srcs.extend(n.args)
+        for v in srcs:
+            if not any(v is s for s in out):
+                out.extend(value_flow(fn, v, _seen))
+    return out
+
+
+def _const_strings(fn: ast.AST, e: ast.AST) -> Set[str]:
+    return {c.value for c in value_flow(fn, e) if isinstance(c, ast.Constant) and isinstance(c.value, str)}
+
+
+def class_provider_calls(fn: ast.AST, nodes: List[ast.AST], cls_param: str) -> Dict[str, ast.Call]:
+    """{method name: call} for the calls among *nodes* that invoke a method of the linted class: `cls.m()`,
+    `getattr(cls, "m", ..)()`, or a local bound to one of the two."""
+    out: Dict[str, ast.Call] = {}
+
+    def denotes(e: ast.AST, depth: int = 0) -> Set[str]:
+        if isinstance(e, ast.Attribute) and isinstance(e.value, ast.Name) and e.value.id == cls_param:
+            return {e.attr}
+        if isinstance(e, ast.Call) and isinstance(e.func, ast.Name) and e.func.id == "getattr" and len(e.args) >= 2 and isinstance(e.args[0], ast.Name) and e.args[0].id == cls_param:
+            if isinstance(e.args[1], ast.Constant) and isinstance(e.args[1].value, str):
+                return {e.args[1].value}
+            return _const_strings(fn, e.args[1])
+        if isinstance(e, ast.Name) and depth < 4:
+            res: Set[str] = set()
+            for v in assigned_value(fn, e.id):
+                res |= denotes(v, depth + 1)
+            return res
+        if isinstance(e, ast.IfExp):
+            return denotes(e.body, depth + 1) | denotes(e.orelse, depth + 1)
+        if isinstance(e, ast.BoolOp):
+            res = set()
+            for v in e.values:
+                res |= denotes(v, depth + 1)
+            return res
+        return set()
+
+    for n in nodes:
+        if isinstance(n, ast.Call):
+            for m in denotes(n.func):
+                out.setdefault(m, n)
+    return out
+
+
+def literal_name_tests(fn: ast.AST, test_nodes: List[ast.AST], cls_param: str) -> List[Tuple[ast.AST, str, str]]:
+    """(test, literal, provider method) for every test among *test_nodes* that compares a string computed from the
+    return value of a method of the linted class with a string literal (==, in, startswith / endswith)."""
+    out: List[Tuple[ast.AST, str, str]] = []
+
+    def lits(e: ast.AST) -> List[str]:
+        if isinstance(e, ast.Constant) and isinstance(e.value, str):
+            return [e.value]
+        if isinstance(e, (ast.Set, ast.Tuple, ast.List)) and e.elts and all(isinstance(x, ast.Constant) and isinstance(x.value, str) for x in e.elts):
+            return [x.value for x in e.elts]
+        if isinstance(e, ast.Call) and isinstance(e.func, ast.Name) and e.func.id in ("set", "frozenset", "tuple", "list") and len(e.args) == 1:
+            return lits(e.args[0])
+        return []
+
+    for t in test_nodes:
+        pairs: List[Tuple[List[str], ast.AST]] = []
+        if isinstance(t, ast.Compare) and all(isinstance(o, (ast.Eq, ast.NotEq, ast.In, ast.NotIn)) for o in t.ops):
+            sides = [t.left] + list(t.comparators)
+            for i, s in enumerate(sides):
+                if lits(s):
+                    pairs.extend((lits(s), o) for j, o in enumerate(sides) if j != i and not lits(o))
+        elif isinstance(t, ast.Call) and isinstance(t.func, ast.Attribute) and t.func.attr in ("startswith", "endswith") and len(t.args) == 1 and lits(t.args[0]):
+            pairs.append((lits(t.args[0]), t.func.value))
+        for ls, other in pairs:
+            for m in class_provider_calls(fn, value_flow(fn, other), cls_param):
+                out.append((t, ls[0], m))
+    return out
+
+
+class _Opaque:
+    """An attribute value of a generated class that is known to exist (and is not None); nothing else is known."""
+
+
+class _AbsTemplate(_AbsClass):
+    """A generated class known by the names along its MRO and by the attributes its template (or a base) defines."""
+
+    def __init__(self, names: List[str], defined: Set[str]):
+        super().__init__(names)
+        self.defined = set(defined)
+
+    def attr(self, name: str):
+        if name in self.defined:
+            return _Opaque()
+        return super().attr(name)
+
+
+def _used_as_value(y: ast.Name) -> bool:
+    """The name is read as a value (a key, a collection of keys), not as an object whose attributes are consulted
+    (`X.provider()`, `getattr(X, ..)`, `inspect.signature(X.method)`: names delegated to the wrapped class)."""
+    node: ast.AST = y
+    for p in ancestors(y):
+        if isinstance(p, ast.Call) and call_attr(p) == "cast" and any(a is node for a in p.args):
+            node = p
+            continue
+        if isinstance(p, ast.Attribute) and p.value is node:
+            return False
+        if isinstance(p, ast.Call) and isinstance(p.func, ast.Name) and p.func.id in ("getattr", "hasattr", "issubclass", "isinstance", "type") and p.args and p.args[0] is node:
+            return False
+        return True
+    return True
+
+
+def configured_name_providers(repo: Repo, tmpl) -> List[Tuple[str, str, str, ast.AST, str, List[str], Set[str]]]:
+    """(file, template, attribute, member function, factory parameter, bases, template attributes) for every classmethod
+    of a class template whose returned names are not fixed by the template: the returned value is computed from an
+    argument of the factory (a context key taken from the configuration, the wrapped user class)."""
+    out = []
+    for rel, tname, attrs, bases, site in tmpl:
+        factory = enclosing_function(site)
+        if factory is None:
+            continue
+        skip = {"self", "cls"}
+        fparams = [p for p in _params(factory) if p not in skip]
+        for attr, f, binding in member_functions(repo, rel, attrs, site):
+            if binding != "classmethod":
+                continue
+            rets = [f.body] if isinstance(f, ast.Lambda) else [n.value for n in walk_no_nested(f) if isinstance(n, ast.Return) and n.value is not None]
+            own = set(_params(f))
+            recv = _first_param(f)
+            hit: Optional[str] = None
+            for rv in rets:
+                nodes = [rv] if isinstance(f, ast.Lambda) else _flow(f, rv)
+                if isinstance(f, ast.Lambda):
+                    nodes = list(ast.walk(rv))
+                free: List[ast.AST] = []
+                for x in nodes:
+                    if isinstance(x, ast.Name) and isinstance(x.ctx, ast.Load) and x.id not in own and not (not isinstance(f, ast.Lambda) and assigned_value(f, x.id)):
+                        free.append(x)
+                    elif isinstance(x, ast.Attribute) and isinstance(x.value, ast.Name) and x.value.id == recv and x.attr in attrs and isinstance(attrs[x.attr][0], (ast.Assign, ast.AnnAssign)) and attrs[x.attr][0].value is not None:
+                        free.append(attrs[x.attr][0].value)
+                for x in free:
+                    for y in _flow_in(factory, x):
+                        if isinstance(y, ast.Name) and y.id in fparams and hit is None and _used_as_value(y):
+                            hit = y.id
+            if hit:
+                out.append((rel, tname, attr, f, hit, bases, set(attrs)))
+    return out
+
+
+def _defined_along(repo: Repo, bases: List[str], own: Set[str]) -> Set[str]:
+    """Attribute names a generated class is known to have: those of its template and the methods of its bases."""
+    out = set(own)
+    for b in bases:
+        hit = _class_by_name(repo, b.split(".")[-1])
+        if hit is None:
+            continue
+        for _m, c in repo.mro(*hit):
+            for st in c.body:
+                if isinstance(st, FuncNode):
+                    out.add(st.name)
+                elif isinstance(st, ast.Assign):
+                    out |= {t.id for t in st.targets if isinstance(t, ast.Name)}
+    return out
+
+
+def class_creators(repo: Repo) -> Dict[str, Set[str]]:
+    """{file: names of its functions that build a class from caller-supplied attributes}: a `**attrs` parameter that
+    reaches the namespace of `new_class(..)` / `type(name, bases, ns)`."""
+    out: Dict[str, Set[str]] = {}
+    for mod in repo.modules.values():
+        if mod.rel.startswith(("semantiva/examples/", "semantiva/contracts/", "tests/")):
+            continue
+        for qn, fn in mod.defs.items():
+            if not isinstance(fn, FuncNode) or fn.args.kwarg is None:
+                continue
+            kw = fn.args.kwarg.arg
+            for c in [n for n in ast.walk(fn) if isinstance(n, ast.Call)]:
+                is_type3 = isinstance(c.func, ast.Name) and c.func.id == "type" and len(c.args) == 3
+                if (is_type3 or call_name(c) in ("types.new_class", "new_class")) and any(isinstance(x, ast.Name) and x.id == kw for x in ast.walk(c)):
+                    out.setdefault(mod.rel, set()).add(fn.name)
+    return out
+
+
+def value_roots(g, fn: ast.AST, expr: ast.AST, at: int, _depth: int = 0) -> Dict[str, Set[frozenset]]:
+    """{variable: {set of the definitions of it that reach the point where it is read}} for the variables that *expr*,
+    evaluated at CFG node *at*, is computed from; a local with one reaching plain assignment is replaced by the variables
+    its right-hand side reads *at that assignment* (so a value staged early keeps the definitions that were current then)."""
+    from ..cfg import reaching_defs
+
+    out: Dict[str, Set[frozenset]] = {}
+    params = set(_params(fn))
+    for x in walk_no_nested(expr) if not isinstance(expr, ast.Name) else [expr]:
+        if not (isinstance(x, ast.Name) and isinstance(x.ctx, ast.Load)):
+            continue
+        defs = reaching_defs(g, x.id, at)
+        if len(defs) == 1 and x.id not in params and _depth < 8 and defs[0].kind == "stmt" and isinstance(defs[0].ast, ast.Assign) and len(defs[0].ast.targets) == 1 and isinstance(defs[0].ast.targets[0], ast.Name) and defs[0].id != at:
+            for k, v in value_roots(g, fn, defs[0].ast.value, defs[0].id, _depth + 1).items():
+                out.setdefault(k, set()).update(v)
+        else:
+            out.setdefault(x.id, set()).add(frozenset(d.id for d in defs))
+    return out
+
+
+def _round6(repo: Repo, R: Report, tmpl) -> None:
+    from ..cfg import CFG
+
+    exp_mod = repo.module(EXP)
+    # ------------------------------------------------------------------ the catalogue does not reject configured names
+    r_nm = R.rule("C16-D1-catalogue-accepts-configured-names", "no error-level rule of the catalogue decides on a comparison of a string literal with names it obtains by calling a method of the linted class, when a class template overrides that method with names computed from the factory's arguments (the context keys a rename / delete / template processor reads, the variables of a sweep, the parameters of a wrapped user class) and the rule reaches that call for the generated class: a valid configuration that happens to use the literal as a key would produce a class that fails the catalogue", 6)
+    providers = configured_name_providers(repo, tmpl)
+    if len(providers) < 6:
+        raise AnalysisError(f"{len(providers)} template classmethods returning names computed from factory arguments found (rename / delete / template processors, sweep wrappers, IO adapters: 20+ confirmed by reading)")
+    builders = diagnostic_builders(repo)
+    checks = catalogue_checks(repo)
+    if len(checks) < 10:
+        raise AnalysisError(f"contract catalogue: {len(checks)} check functions registered through RuleSpec(...) found (30+ confirmed by reading)")
+    n_err = 0
+    # (check, normal form, test, literal, provider method, diagnostic call)
+    suspects: List[Tuple[str, ast.AST, ast.AST, str, str, ast.Call]] = []
+    for qn in checks:
+        src = exp_mod.defs[qn]
+        nf = clone(normalize(repo, exp_mod, src, copyprop="all", keep=tuple(builders)))
+        _attach_parents(nf)
+        ps = _explicit_params(nf)
+        if not ps:
+            continue
+        for d in error_diagnostics(nf, builders):
+            n_err += 1
+            guards: List[ast.AST] = []
+            for a in ancestors(d):
+                if isinstance(a, (ast.If, ast.While, ast.IfExp)) and not any(x is d for x in ast.walk(a.test)):
+                    guards.append(a.test)
+                elif isinstance(a, ast.comprehension):
+                    guards.extend(a.ifs)
+                elif isinstance(a, (ast.ListComp, ast.SetComp, ast.GeneratorExp)):
+                    guards.extend(c for g2 in a.generators for c in g2.ifs)
+                if a is nf:
+                    break
+            tests: List[ast.AST] = []
+            for gt in guards:
+                for x in value_flow(nf, gt):
+                    if isinstance(x, (ast.Compare, ast.Call)) and not any(x is t for t in tests):
+                        tests.append(x)
+            found = literal_name_tests(nf, tests, ps[0])
+            found.sort(key=lambda h: 0 if isinstance(h[0], ast.Compare) and isinstance(h[0].ops[0], (ast.Eq, ast.NotEq)) else 1)
+            for t, lit, m in found:
+                if not any(s[0] == qn and s[4] == m for s in suspects):
+                    suspects.append((qn, nf, t, lit, m, d))
+    if n_err < 10:
+        raise AnalysisError(f"contract catalogue: {n_err} error-level diagnostics found in the registered checks (40+ confirmed by reading; builders: {sorted(builders)})")
+    R.extra["catalogue_name_tests_on_class_methods"] = sorted({f"{q}:{m}" for q, _f, _t, _l, m, _d in suspects})
+    for rel, tname, attr, f, fparam, bases, tattrs in providers:
+        repo.consulted.add(rel)
+        hits = [s for s in suspects if s[4] == attr]
+        if not hits:
+            R.ok(r_nm, rel, f"{tname}.{attr}", f"names computed from `{fparam}`: no error-level catalogue rule compares them with a literal")
+            continue
+        ctype = next((t for t in (declared_component_type(repo, b.split(".")[-1]) for b in bases) if t), None)
+        for qn, nf, t, lit, m, d in hits:
+            if ctype is None:
+                raise AnalysisError(f"component_type of the classes generated by {rel}:{tname} not found: whether `{EXP}:{qn}` applies to them is not decided")
+            nps = _params(nf)
+            env: Dict[str, object] = {nps[0]: _AbsTemplate(["<generated>"] + mro_names(repo, bases), _defined_along(repo, bases, tattrs))}
+            if len(nps) > 1:
+                env[nps[1]] = {"component_type": ctype}
+            applies, seen = rule_applies(nf, m, env)
+            if applies is None:
+                raise AnalysisError(f"cannot decide whether `{EXP}:{qn}` reaches its call of `{m}` for the classes generated by {rel}:{tname}: " + "; ".join(seen))
+            R.check(applies is False, r_nm, EXP, qn, f"{norm(t, 90)} on names from cls.{m}()",
+                    f"`{EXP}:{qn}` reports an error-level diagnostic (`{norm(d, 60)}`) depending on `{norm(t, 80)}`, where the tested string comes from `cls.{m}()`; the classes generated by `{rel}:{tname}` (component_type `{ctype}`) override `{m}` with names computed from the factory argument `{fparam}` - configuration keys, not Python parameters - and the rule reaches that call for them ({'; '.join(seen) or 'no early exit applies'}): a valid configuration that uses `{lit}` as such a name (`delete:{lit}`, a template placeholder, a sweep variable) yields a generated class with an error-level diagnostic", getattr(t, "lineno", 0) or getattr(exp_mod.defs[qn], "lineno", 0))
+
+    # ------------------------------------------------------------------ the node class and the node instance wrap one processor
+    r_one = R.rule("C16-D2-node-class-and-instance-share-processor", "where a factory fixes an attribute on the generated node class (`processor`, `context_key`, ..) and hands the constructor of that class an argument for the parameter of the same name, both are computed from the same values: every variable the two expressions read holds, where the class attribute is computed, the definition it holds where the constructor argument is computed - the node class's declared types / created keys / metadata are read from the class attribute, the node runs the constructor argument, and a rebinding between the two (a `with_context_key` variant, a resolved class) makes the declaration describe another processor than the one that runs", 6)
+    creators = class_creators(repo)
+    if not creators:
+        raise AnalysisError("no function that builds a class from caller-supplied attributes (`**attrs` reaching new_class / type) found: anchor of C16-D2-node-class-and-instance-share-processor vanished")
+    n_sites = 0
+    for mod in repo.modules.values():
+        if mod.rel.startswith(("semantiva/examples/", "semantiva/contracts/", "tests/")):
+            continue
+        names = set().union(*creators.values())
+        for c in [n for n in ast.walk(mod.tree) if isinstance(n, ast.Call) and call_attr(n) in names]:
+            encl = enclosing_function(c)
+            if encl is None or encl.name in names:
+                continue
+            st = stmt_of(c)
+            made: Optional[str] = st.targets[0].id if isinstance(st, ast.Assign) and len(st.targets) == 1 and isinstance(st.targets[0], ast.Name) and st.value is c else None
+            insts = [x for x in ast.walk(encl) if isinstance(x, ast.Call) and ((made and isinstance(x.func, ast.Name) and x.func.id == made) or x.func is c)]
+            if not insts:
+                continue
+            base_e = kwarg(c, "base_cls") or (c.args[1] if len(c.args) > 1 else None)
+            base = _class_by_name(repo, (dotted_name(base_e) or "?").split(".")[-1]) if base_e is not None else None
+            init = repo.method(base[0], base[1], "__init__") if base else None
+            if init is None:
+                continue
+            iparams = _explicit_params(init[1])[1:]
+            g = CFG(encl)
+            for kw in c.keywords:
+                if kw.arg is None or kw.arg not in iparams:
+                    continue
+                for inst in insts:
+                    arg = kwarg(inst, kw.arg)
+                    idx = iparams.index(kw.arg)
+                    if arg is None and idx < len(inst.args) and not any(isinstance(a, ast.Starred) for a in inst.args[: idx + 1]):
+                        arg = inst.args[idx]
+                    if arg is None:
+                        continue
+                    at_c, at_i = g.nodes_for(st), g.nodes_for(stmt_of(inst))
+                    if not at_c or not at_i:
+                        raise AnalysisError(f"{mod.rel}:{qualname_of(encl)}: no CFG node for `{norm(st, 60)}` / `{norm(stmt_of(inst), 60)}`")
+                    roots_c = value_roots(g, encl, kw.value, at_c[0])
+                    roots_i = value_roots(g, encl, arg, at_i[0])
+                    common = sorted(set(roots_c) & set(roots_i))
+                    if not common:
+                        raise AnalysisError(f"{mod.rel}:{qualname_of(encl)}: class attribute `{kw.arg}={norm(kw.value, 60)}` and constructor argument `{norm(arg, 60)}` read no variable in common: whether they denote the same processor is not decided")
+                    n_sites += 1
+                    repo.consulted.add(mod.rel)
+                    diff = [v for v in common if roots_c[v] != roots_i[v]]
+                    what = ""
+                    if diff:
+                        v = diff[0]
+                        ids = sorted(set().union(*roots_i[v]) ^ set().union(*roots_c[v]))
+                        redef = g.nodes[ids[0]] if ids else None
+                        what = (f"the generated node class gets `{kw.arg}={norm(kw.value, 60)}`, computed from `{v}` as it is bound before that point, while the node instance is constructed with `{norm(arg, 60)}`, computed from `{v}` after `{redef.text()[:90] if redef is not None else 'a rebinding'}`"
+                                f"{' (line ' + str(redef.line) + ')' if redef is not None else ''}: what the node class declares (get_created_keys, data types, metadata `wrapped_component` / `injected_context_keys`) is read from the class attribute and describes another processor than the one the node runs - created keys and types of the node wrapper no longer mirror the processor it wraps (a context-key-bound variant declares the unbound class's key)")
+                    R.check(not diff, r_one, mod.rel, qualname_of(encl), f"{call_attr(c)}(.., {kw.arg}={norm(kw.value, 50)}) / {norm(inst.func, 30)}({kw.arg}={norm(arg, 50)})", what, getattr(inst, "lineno", 0))
+    if n_sites < 6:
+        raise AnalysisError(f"only {n_sites} (class attribute, constructor argument) pairs found at the class-creating call sites (11 confirmed by reading)")
